@@ -164,11 +164,16 @@ def gen_lua_fn_cases(ctx, n):
             out.append(H.OpCase("fn", "floor", [num()], "math"))
         elif x < 0.85:
             out.append(H.OpCase("fn", "rem", [num(), num()], "math"))
-        else:
+        elif x < 0.93:
             t = H.gen_type(r, 2, ("int", "str", "tuple", "list"))
             while t[0] not in ("tuple", "list"):
                 t = H.gen_type(r, 2, ("int", "str", "tuple", "list"))
             out.append(H.OpCase("fn", "index", [(H.gen_value(r, t), t), (r.choice([0, 1, 2, 5, -1]), H.INT)], "index"))
+        else:
+            # tag and payload of a Maybe / enum value, as `case` reads them (payloads false, 0, "", (), [] included)
+            t = r.choice([H.MAYBE(H.BOOL), H.MAYBE(H.BOOL), H.MAYBE(H.INT), H.MAYBE(H.STR), H.MAYBE(H.TUP(H.BOOL, H.INT)),
+                          H.MAYBE(H.LIST(H.INT)), H.ENUM_E])
+            out.append(H.OpCase("fn", "index", [(H.gen_value(r, t), t), (r.choice([1, 2, 2, 2, 3]), H.INT)], "index-variant"))
     return out
 
 
